@@ -2,4 +2,4 @@ From Coq Require Extraction ExtrOcamlBasic.
 From Common Require Import Words.
 From Json Require Import JsonSpec JsonModel.
 Extraction Language OCaml.
-Extraction "model.ml" anchor parse to_string strip_comments strip_comments_chk parse_with parse_obj static_parse cstr value_eq in_class canon position_insideb reference_strip ref_string.
+Extraction "model.ml" anchor parse to_string strip_comments strip_comments_chk parse_with parse_obj static_parse cstr value_eq in_class canon position_insideb reference_strip ref_string in_ext readback scanf_hex.
